@@ -11,6 +11,7 @@ structure RInv (e : Ep) : Prop where
   eofErr : ∀ (h : Nat) (o : Obj), e.objs[h]? = some o → o.eofSeen = true → o.readErr = true ∧ readOne o = none
   rcvGt : ∀ t ∈ e.rcv, e.cum < t
   reader : ∀ (h : Nat) (o : Obj), e.objs[h]? = some o → ReaderInv e.il o
+  unregErr : ∀ (h : Nat) (o : Obj), e.objs[h]? = some o → lookup o.sid e.reg = some h ∨ o.readErr = true
 
 theorem readOne_none_iff (o : Obj) : readOne o = none ↔ o.unord = [] ∧ (o.ord = [] ∨ ∃ q rest, o.ord = q :: rest ∧ o.nextSeq < q.seq) := by
   unfold readOne
@@ -47,14 +48,19 @@ theorem ReaderInv.transportQ {il : Bool} {o o' : Obj} (h : ReaderInv il o) (s : 
 /-- nothing the receive half looks at has changed -/
 theorem RInv.same {e e' : Ep} (inv : RInv e) (hil : e'.il = e.il) (hcum : e'.cum = e.cum) (hrcv : e'.rcv = e.rcv)
     (hreg : e'.reg = e.reg) (hobjs : ObjsRel ReaderSame e.objs e'.objs) : RInv e' := by
-  obtain ⟨h1, h2, h3, h4⟩ := inv
+  obtain ⟨h1, h2, h3, h4, h5⟩ := inv
   have back : ∀ (h : Nat) (o' : Obj), e'.objs[h]? = some o' → ∃ o, e.objs[h]? = some o ∧ ReaderSame o o' := by
     intro h o' ho'
     have hlt : h < e.objs.length := by rw [← hobjs.1]; exact getElem?_lt ho'
     obtain ⟨o'', ho'', r⟩ := hobjs.2 h _ (List.getElem?_eq_getElem hlt)
     rw [ho'] at ho''; cases ho''
     exact ⟨_, List.getElem?_eq_getElem hlt, r⟩
-  refine ⟨?_, ?_, ?_, ?_⟩
+  refine ⟨?_, ?_, ?_, ?_, ?_⟩
+  rotate_right
+  · rw [hreg]
+    intro h o' ho'
+    obtain ⟨o, ho, r⟩ := back h o' ho'
+    rw [r.sid, r.readErr]; exact h5 h o ho
   · rw [hreg]
     intro sid h hl
     obtain ⟨o, ho, a, b⟩ := h1 sid h hl
@@ -77,7 +83,7 @@ theorem ObjsRel.setSame {R : Obj → Obj → Prop} (hr : ∀ o, R o o) (l : List
 theorem RInv.addObj {e e' : Ep} (inv : RInv e) (sid gen : Nat) (hnone : lookup sid e.reg = none)
     (hil : e'.il = e.il) (hcum : e'.cum = e.cum) (hrcv : e'.rcv = e.rcv)
     (hreg : e'.reg = insert sid e.objs.length e.reg) (hobjs : e'.objs = e.objs ++ [{ sid := sid, gen := gen }]) : RInv e' := by
-  obtain ⟨h1, h2, h3, h4⟩ := inv
+  obtain ⟨h1, h2, h3, h4, h5⟩ := inv
   have old : ∀ (h : Nat) (o : Obj), e.objs[h]? = some o → e'.objs[h]? = some o := by
     intro h o ho
     rw [hobjs, List.getElem?_append_left (getElem?_lt ho)]; exact ho
@@ -90,7 +96,18 @@ theorem RInv.addObj {e e' : Ep} (inv : RInv e) (sid gen : Nat) (hnone : lookup s
       rcases Nat.eq_zero_or_pos (h - e.objs.length) with h0 | h0
       · rw [h0] at ho'; simp at ho'; exact Or.inr ⟨by omega, ho'.symm⟩
       · rw [List.getElem?_eq_none (by simp; omega)] at ho'; cases ho'
-  refine ⟨?_, ?_, ?_, ?_⟩
+  refine ⟨?_, ?_, ?_, ?_, ?_⟩
+  rotate_right
+  · rw [hreg]
+    intro h o' ho'
+    rcases back h o' ho' with ho | ⟨hh, rfl⟩
+    · by_cases hs : o'.sid = sid
+      · right
+        rcases h5 h o' ho with hl | hre
+        · rw [hs, hnone] at hl; cases hl
+        · exact hre
+      · rw [lookup_insert_ne _ _ _ _ hs]; exact h5 h o' ho
+    · left; rw [hh]; exact lookup_insert_self _ _ _
   · rw [hreg]
     intro sid' h hl
     by_cases hs : sid' = sid
@@ -127,12 +144,19 @@ theorem RInv.push {e e' : Ep} (inv : RInv e) (h : Nat) (o : Obj) (c : Chunk) (ho
     (hne : o.readErr = false) (hgt : e.cum < c.tsn)
     (hil : e'.il = e.il) (hcum : e'.cum = e.cum) (hrcv : e'.rcv = c.tsn :: e.rcv)
     (hreg : e'.reg = e.reg) (hobjs : e'.objs = e.objs.set h (pushObj e.il o c)) : RInv e' := by
-  obtain ⟨h1, h2, h3, h4⟩ := inv
+  obtain ⟨h1, h2, h3, h4, h5⟩ := inv
   have hlt := getElem?_lt ho
   have hget : e'.objs[h]? = some (pushObj e.il o c) := by rw [hobjs]; simp [hlt]
   have hother : ∀ j, j ≠ h → e'.objs[j]? = e.objs[j]? := fun j hj => by rw [hobjs]; exact List.getElem?_set_ne (Ne.symm hj)
   obtain ⟨p1, p2, p3, p4, p5, p6⟩ := pushObj_same e.il o c
-  refine ⟨?_, ?_, ?_, ?_⟩
+  refine ⟨?_, ?_, ?_, ?_, ?_⟩
+  rotate_right
+  · rw [hreg]
+    intro j oj hoj
+    by_cases hj : j = h
+    · subst hj; rw [hget] at hoj; cases hoj
+      rw [p1, p3]; exact h5 j o ho
+    · rw [hother j hj] at hoj; exact h5 j oj hoj
   · rw [hreg]
     intro sid j hl
     obtain ⟨oj, hoj, a, b⟩ := h1 sid j hl
@@ -164,10 +188,10 @@ theorem inboundReset_readOne (o : Obj) : readOne (inboundReset o) = none ↔ rea
 
 /-- Go: resetStreamsIfAny for one identifier -/
 theorem resetOne_rinv (e : Ep) (sid : Nat) (inv : RInv e) : RInv (resetOne e sid) := by
-  obtain ⟨h1, h2, h3, h4⟩ := inv
+  obtain ⟨h1, h2, h3, h4, h5⟩ := inv
   unfold resetOne
   split
-  · exact ⟨h1, h2, h3, h4⟩
+  · exact ⟨h1, h2, h3, h4, h5⟩
   · rename_i h hl
     obtain ⟨o, ho, hos, hoe⟩ := h1 sid h hl
     rw [ho]
@@ -175,7 +199,17 @@ theorem resetOne_rinv (e : Ep) (sid : Nat) (inv : RInv e) : RInv (resetOne e sid
     have hlt := getElem?_lt ho
     have hget : (e.objs.set h (inboundReset o))[h]? = some (inboundReset o) := by simp [hlt]
     have hother : ∀ j, j ≠ h → (e.objs.set h (inboundReset o))[j]? = e.objs[j]? := fun j hj => List.getElem?_set_ne (Ne.symm hj)
-    refine ⟨?_, ?_, h3, ?_⟩
+    refine ⟨?_, ?_, h3, ?_, ?_⟩
+    rotate_right
+    · intro j oj hoj
+      by_cases hj : j = h
+      · subst hj; rw [hget] at hoj; cases hoj; exact Or.inr rfl
+      · rw [hother j hj] at hoj
+        rcases h5 j oj hoj with hl2 | hre
+        · by_cases hs : oj.sid = sid
+          · rw [hs, hl] at hl2; cases hl2; exact absurd rfl hj
+          · left; rw [lookup_erase_ne _ _ _ hs]; exact hl2
+        · exact Or.inr hre
     · intro sid' j hl'
       by_cases hs : sid' = sid
       · subst hs; rw [lookup_erase_self] at hl'; cases hl'
@@ -250,8 +284,8 @@ theorem advance_rinv (fuel : Nat) : ∀ e, RInv e → RInv (advance fuel e).1 :=
     split
     · apply ih
       apply recheck_rinv
-      obtain ⟨h1, h2, h3, h4⟩ := h
-      refine ⟨h1, h2, ?_, h4⟩
+      obtain ⟨h1, h2, h3, h4, h5⟩ := h
+      refine ⟨h1, h2, ?_, h4, h5⟩
       intro t ht
       simp only [List.mem_filter, bne_iff_ne, ne_eq] at ht
       have := h3 t ht.1
@@ -412,7 +446,7 @@ theorem read_rinv (e : Ep) (h : Nat) (inv : RInv e) : RInv (read e h).1 := by
   · exact inv
   · rename_i o ho
     simp only
-    obtain ⟨h1, h2, h3, h4⟩ := inv
+    obtain ⟨h1, h2, h3, h4, h5⟩ := inv
     have hlt := getElem?_lt ho
     generalize hD : drain (o.ord.length + o.unord.length) o [] = D
     have hsame := drain_same (o.ord.length + o.unord.length) o []
@@ -436,7 +470,13 @@ theorem read_rinv (e : Ep) (h : Nat) (inv : RInv e) : RInv (read e h).1 := by
     obtain ⟨q1, q2, q3, q4, q5⟩ := hq
     have hget : (e.objs.set h o'')[h]? = some o'' := by simp [hlt]
     have hother : ∀ j, j ≠ h → (e.objs.set h o'')[j]? = e.objs[j]? := fun j hj => List.getElem?_set_ne (Ne.symm hj)
-    refine ⟨?_, ?_, h3, ?_⟩
+    refine ⟨?_, ?_, h3, ?_, ?_⟩
+    rotate_right
+    · intro j oj hoj
+      by_cases hj : j = h
+      · subst hj; rw [hget] at hoj; cases hoj
+        rw [q1, q2]; exact h5 j o ho
+      · rw [hother j hj] at hoj; exact h5 j oj hoj
     · intro sid j hl
       obtain ⟨oj, hoj, a, b⟩ := h1 sid j hl
       by_cases hj : j = h
